@@ -252,3 +252,83 @@ func PATFor(r *rand.Rand, pmtPID uint16) *Unit {
 	u.TailPad = true
 	return u
 }
+
+// ExactSection draws a section of the kind whose section_length is exactly `length` (e.g. the kind's maximum): a small random section
+// padded with user-defined descriptors in its first descriptor loop. PAT sections are padded with programs (length ≡ 9 mod 4
+// otherwise the nearest smaller fit is used). Returns nil when the kind cannot reach the length.
+func ExactSection(r *rand.Rand, kind refts.TableKind, length int) *astits.PSISection {
+	for tries := 0; tries < 50; tries++ {
+		s := RandomSection(r, kind, 200, 0)
+		b, err := refts.EncodeSection(s, nil)
+		if err != nil {
+			continue
+		}
+		pad := length - (len(b) - 3)
+		if pad == 0 {
+			return s
+		}
+		if pad < 0 || pad == 1 {
+			continue
+		}
+		d := s.Syntax.Data
+		var loop *[]*astits.Descriptor
+		switch kind {
+		case refts.KindPAT:
+			if pad%4 != 0 {
+				continue
+			}
+			used := map[uint16]bool{}
+			for _, p := range d.PAT.Programs {
+				used[p.ProgramNumber] = true
+			}
+			for n := uint16(1); pad > 0; n++ {
+				if used[n] {
+					continue
+				}
+				d.PAT.Programs = append(d.PAT.Programs, &astits.PATProgram{ProgramNumber: n, ProgramMapID: 0x1f00 + n%0xf0})
+				pad -= 4
+			}
+			return s
+		case refts.KindPMT:
+			loop = &d.PMT.ProgramDescriptors
+		case refts.KindNIT:
+			loop = &d.NIT.NetworkDescriptors
+		case refts.KindTOT:
+			if d.TOT == nil || s.Header.TableID == 0x70 { // a TDT has no descriptor loop
+				continue
+			}
+			loop = &d.TOT.Descriptors
+		case refts.KindSDT:
+			if len(d.SDT.Services) == 0 {
+				continue
+			}
+			loop = &d.SDT.Services[0].Descriptors
+		case refts.KindEIT:
+			if len(d.EIT.Events) == 0 {
+				continue
+			}
+			loop = &d.EIT.Events[0].Descriptors
+		default:
+			return nil
+		}
+		if descLoopSize(*loop)+pad > 4095 {
+			continue
+		}
+		for pad > 0 {
+			c := pad
+			if c > 257 {
+				c = 257
+			}
+			if pad-c == 1 {
+				c--
+			}
+			body := Bytes(r, c-2)
+			*loop = append(*loop, &astits.Descriptor{Tag: 0x80 + uint8(r.UintN(0x7e)), Length: uint8(c - 2), UserDefined: body})
+			pad -= c
+		}
+		if b, err = refts.EncodeSection(s, nil); err == nil && len(b)-3 == length {
+			return s
+		}
+	}
+	return nil
+}
